@@ -455,7 +455,7 @@ func checkURLStartTypestate(p *Program, r *Report) {
 	for _, b := range ea.Blocks {
 		for _, in := range b.Instrs {
 			if c, ok := in.(*ssa.Call); ok {
-				if f := staticCallee(c.Common()); f != nil && f.Name() == "editActionNode" {
+				if f := staticCallee(c.Common()); f != nil && cname(f) == "editActionNode" {
 					edit = c
 				}
 			}
